@@ -30,3 +30,17 @@ func (u *Upload) VerifCreateQPFile(name string) (io.Writer, error) {
 	h.Set("Content-Transfer-Encoding", "quoted-printable")
 	return u.mpw.CreatePart(h)
 }
+
+// VerifWriteFileField sends a part with the given field name that carries a file name and content (used by the
+// C20 harness: a field other than "file" is a protocol violation whether or not it looks like a file).
+func (u *Upload) VerifWriteFileField(field, filename, content string) error {
+	if u.mpw == nil {
+		return nil
+	}
+	w, err := u.mpw.CreateFormFile(field, filename)
+	if err != nil {
+		return err
+	}
+	_, err = io.WriteString(w, content)
+	return err
+}
